@@ -86,7 +86,8 @@ def check_case(case, res=None):
             p = os.path.join(out_b, rel)
             os.makedirs(os.path.dirname(p), exist_ok=True)
             with open(p, "wb") as f:
-                f.write(data)
+                # an earlier, larger revision of the same module: the rerun must replace it completely
+                f.write(data + b"\n# tail of an older, longer revision\n" * (1 + len(rel) % 3))
         with open(os.path.join(out_b, "zzz_unrelated.txt"), "w") as f:
             f.write("keep me")
         # stale modules left over from an earlier, different specification
